@@ -841,6 +841,19 @@ class ActorLoop(ActorStep):
         else:
             out.append(tagged('deadline', 'C04.f: no timer only when nothing is outstanding', m2.count() == 0))
         out.append(Cover('something expired and was re-queued', z3.Or([z3.And(d.used, in_backlog(d.tok)) for d in st.ds] or [False])))
+        if self.with_request and getattr(self, 'request', 'post') == 'pull':
+            # C04: the lease of a delivery handed out by this pull runs from an instant at which the pull was being handled -
+            # a clock reading taken after the request was taken from the mailbox (not one left over from before the actor waited)
+            log = res['log']
+            deq = [i for i, e in enumerate(log) if e[0] == 'dequeue']
+            if deq:
+                after = [e[1] for i, e in enumerate(log) if e[0] == 'clock' and i > deq[0]]
+                for u, k, v in m2.slots:
+                    tok, ackv, dl, _att = pm_parts(ctx, v)
+                    new = z3.And(u, ackv >= st.next)
+                    out.append(tagged('deadline', 'a delivery handed out by the pull expires ack_deadline after a clock reading taken while the pull was handled',
+                                      z3.Implies(new, z3.Or([dl == rounded(t + st.ackdl * NS) for t in after] or [z3.BoolVal(False)]))))
+                out.append(Cover('the pull handed something out', z3.Or([z3.And(u, pm_parts(ctx, v)[1] >= st.next) for u, k, v in m2.slots] or [False])))
         if self.with_request:
             out.append(Cover('request handled'))
         return out
